@@ -221,6 +221,8 @@ def solver_option_obls(problems, rz, prefix=""):
     for k, p in enumerate(problems):
         extra = sorted(set(p.get("options") or {}) - HARMLESS_SOLVER_OPTIONS)
         out.append(Obl(prefix + "solver-asked-for-an-exact-optimum(no gap / limit option)", not extra, rz))
+        if "boolean" in p:
+            out.append(Obl(prefix + "mip-variable-declared-boolean(a relaxed variable may come back fractional)", p["boolean"], rz))
     return out
 
 
@@ -370,6 +372,13 @@ def _replay_pipeline(case):
     except Exception as ex:     # noqa: BLE001
         return dict(reproduced=True, detail="building the inputs raised " + repr(ex)[:300])
     soft = case.get("mode") == "soft"
+    if case.get("offer_zero"):
+        from pyannote.core import Segment as _Seg
+        for a_, z_ in zip(case["annotators"], case["offer_zero"]):
+            try:
+                c.add(a_, _Seg(float(Fraction(z_)), float(Fraction(z_))), None)       # not a unit: must be refused
+            except ValueError:
+                pass
     if case.get("warm"):
         import pygamma_agreement as pa
         from pyannote.core import Segment
@@ -570,6 +579,25 @@ def medium_cases(seed=0):
                 units.append([ANN[a], repr(s), repr(s + 1.0 + 0.25 * a), ["x", "y"][(a + j) % 2]])
         cases.append(dict(shape=list(shape), units=units, annotators=[ANN[a] for a in range(len(shape))], alpha=1, beta=[0, 1][k % 2],
                           de=de, dissim=["combined", "positional"][(k // 2) % 2]))
+    return cases
+
+
+def odd_cycle_cases():
+    """three annotators whose units form an odd cycle of pair costs between 2 and 3 delta_empty (three labels on one spot ...): the LP
+    relaxation of the cover / partition program is fractional there"""
+    cases = []
+    for shift in (0.0, 1.0, 2.0):
+        units = [[ANN[0], repr(0.0), repr(10.0), "x"], [ANN[1], repr(4.0 - shift), repr(14.0 - shift), "y"], [ANN[2], repr(2.0), repr(12.0 + shift), "z"],
+                 [ANN[0], repr(30.0), repr(35.0), "x"], [ANN[1], repr(30.5), repr(35.5), "x"], [ANN[2], repr(31.0), repr(36.0), "x"]]
+        cases.append(dict(shape=[2, 2, 2], units=units, annotators=ANN[:3], alpha=3, beta=2, de=1, dissim="combined"))
+    units = [[ANN[a], repr(0.0), repr(10.0), "xyz"[a]] for a in range(3)]
+    cases.append(dict(shape=[1, 1, 1], units=units, annotators=ANN[:3], alpha=3, beta=2, de=1, dissim="combined"))
+    # two annotators and an exact tie between two optimal alignments (the relaxation is integral, but an interior-point method returns
+    # the midpoint of the optimal face)
+    for de in (1, 0.5):
+        units = [[ANN[0], repr(2.0), repr(4.0), "x"], [ANN[1], repr(1.0), repr(3.0), "x"], [ANN[1], repr(3.0), repr(5.0), "x"]]
+        cases.append(dict(shape=[1, 2], units=units, annotators=ANN[:2], alpha=1, beta=1, de=de, dissim="positional"))
+        cases.append(dict(shape=[1, 2], units=units, annotators=ANN[:2], alpha=1, beta=1, de=de, dissim="combined"))
     return cases
 
 
